@@ -24,9 +24,9 @@ def _display_name(op, qualify):
 
 @native
 def _names_match(want, drawn):
-    """The drawn label is exactly the display name (as written, or HTML-escaped for the table label)."""
+    """The drawn label carries the display name (as written, or HTML-escaped for the table label); other decoration is allowed."""
     import html
-    return drawn in (want, html.escape(want), html.escape(want, quote=False), want.replace("<", "&lt;").replace(">", "&gt;"))
+    return any(w in drawn for w in (want, html.escape(want), html.escape(want, quote=False), want.replace("<", "&lt;").replace(">", "&gt;")))
 
 
 def check_drawing(h, cfg, tag):
